@@ -611,6 +611,16 @@ static int real_main(int argc, char **argv)
       if (!p || !p->parent) printf("bad-op");
       else { config_setting_t *r = config_setting_add(p->parent, config_setting_name(p), atoi(w[2])); putpath(r); printf(" [%s]", logstr()); }
     }
+    else if (OP("add_alias", 5)) {
+      /* add to <parent> a setting whose name argument is a string the library itself owns: the NAME or the string VALUE
+         of another setting (possibly inside the member that the addition overrides) */
+      config_setting_t *p = at(w[1]), *src = at(w[2]);
+      if (!p || !src) printf("bad-op");
+      else {
+        const char *q = !strcmp(w[3], "name") ? config_setting_name(src) : config_setting_get_string(src);
+        config_setting_t *r = config_setting_add(p, q, atoi(w[4])); putpath(r); printf(" [%s]", logstr());
+      }
+    }
     else if (OP("hold", 4)) {
       /* remember a string the library handed out: value | name of a setting, or the include directory */
       int k = atoi(w[1]); config_setting_t *p = at(w[3]); const char *q = NULL;
